@@ -1,7 +1,7 @@
 #!/bin/sh
 # tools/runall.sh [tier] — runs every registered check once and validates the evidence files.
 tier="${1:-quick}"
-cd /verif
+cd "$(dirname "$0")/.." || exit 2
 fail=0
 for id in $(python3 -c "import json;print(' '.join(c['property_id'] for c in json.load(open('MANIFEST.json'))['checks']))"); do
   s=$(date +%s)
@@ -13,7 +13,7 @@ done
 python3-vt - <<'PY'
 import json,jsonschema,glob
 sch=json.load(open('/root/.vp/EVIDENCE.schema.json'))
-for f in sorted(glob.glob('/verif/evidence/*.json')):
+for f in sorted(glob.glob('evidence/*.json')):
     try:
         jsonschema.validate(json.load(open(f)),sch)
     except Exception as ex:
